@@ -54,6 +54,25 @@ func check(c Case) error {
 	}
 	table := codon.GetCodonTable(c.Table)
 	if c.Kind == "lists" {
+		if err := judgeLists(c, g, table); err != nil {
+			return err
+		}
+		// the table value belongs to the caller, who extends it into a table of his own: a start codon, a stop codon and an
+		// amino acid appended to its three lists (no element of any list is written: elements are shared, see K-C08-1). A table requested afterwards is NCBI's again.
+		mine := table
+		mine.StartCodons = append(mine.StartCodons, "TTA")
+		mine.StopCodons = append(mine.StopCodons, "TTA")
+		mine.AminoAcids = append(mine.AminoAcids, codon.AminoAcid{Letter: "J"})
+		if err := judgeLists(c, g, codon.GetCodonTable(c.Table)); err != nil {
+			return vk.Errf("after the caller appended to the lists of an earlier table value: %v", err)
+		}
+		return nil
+	}
+	return checkStrings(c, g, table)
+}
+
+func judgeLists(c Case, g ref.GeneticCode, table codon.Table) error {
+	{
 		if !sameMultiset(table.StartCodons, g.Starts) {
 			return vk.Errf("table %d (%s): start codons %v, NCBI lists %v", c.Table, g.Name, table.StartCodons, g.Starts)
 		}
@@ -77,6 +96,9 @@ func check(c Case) error {
 		}
 		return nil
 	}
+}
+
+func checkStrings(c Case, g ref.GeneticCode, table codon.Table) error {
 	upper := c.Seq.String()
 	in := applyCase(upper, c.CaseMask)
 	for _, sib := range vk.Siblings(upper) { // related inputs first, results discarded
